@@ -53,7 +53,7 @@ Definition name_check (md : rmeta) (r : role) : res unit :=
 (* RoleMetadata::new *)
 Definition meta_new (r : role) (index : Z) : res rmeta :=
   match str_to_bytes NAME_LEN (r_name r) with
-  | Err _ => Err EC_LEN
+  | Err e => Err (if e =? E_LEN then EC_LEN else EC_ARG)     (* ExceedMaxLengthLimit | InvalidFormat -> InvalidArgument *)
   | Ok nb => Ok (mkmeta nb ROLE_ENABLED index)
   end.
 
